@@ -200,7 +200,7 @@ def _verify_pwl_calibration(
   num_keypoints = (
       keypoint_input_parameters.shape[-1] + 2
       if keypoint_input_parameters is not None
-      else 0
+      else 2
   )
   output_param_size = (
       num_keypoints
